@@ -87,12 +87,20 @@ def drop_sandbox(path: str) -> None:
     shutil.rmtree(path, ignore_errors=True)
 
 
+ROOT_TOKEN = b"$ROOT$"
+
+
 def populate(root: str, files: dict[str, bytes]) -> None:
+    """Write the case's files; in source files the token $ROOT$ stands for the sandbox directory
+    (lets a case refer to files by absolute path although the directory is only known at run time)."""
     for rel in sorted(files):
         p = os.path.join(root, rel)
         os.makedirs(os.path.dirname(p), exist_ok=True)
+        data = files[rel]
+        if rel.endswith(".s") and ROOT_TOKEN in data:
+            data = data.replace(ROOT_TOKEN, root.encode())
         with _REAL_OPEN(p, "wb") as f:
-            f.write(files[rel])
+            f.write(data)
 
 
 class InjectedFault(OSError):
